@@ -2,6 +2,13 @@ package c10
 
 import (
 	"fmt"
+	"math/big"
+	"reflect"
+	"strings"
+
+	"github.com/ethereum/go-ethereum/common"
+
+	"github.com/ethereum/go-ethereum/accounts/abi"
 
 	sdk "github.com/cosmos/cosmos-sdk/types"
 	consensustypes "github.com/palomachain/paloma/v2/x/consensus/types"
@@ -56,6 +63,85 @@ func readValsetMessages(c *chain.Chain, ctx sdk.Context, chainRef string) (out [
 		}
 	}
 	return out, true
+}
+
+// sentUpload is an UploadSmartContract (compass deployment) message found in a turnstone queue whose
+// constructor input carries a validator set: the set the new compass starts with on that chain.
+type sentUpload struct {
+	Chain      string
+	MsgID      uint64
+	ContractID uint64
+	Valset     evmtypes.CompassValset
+	Err        string // constructor input present but not decodable with the message's own ABI
+}
+
+// readUploadMessages returns the compass deployments sitting in the turnstone queue of chainRef under ctx.
+// The constructor arguments are decoded with go-ethereum's ABI package from the ABI the message itself
+// carries: (compass id, event id, gravity nonce, valset{validators, powers, valset_id}, fee manager).
+func readUploadMessages(c *chain.Chain, ctx sdk.Context, chainRef string) (out []sentUpload, ok bool) {
+	defer func() {
+		if e := recover(); e != nil {
+			out, ok = []sentUpload{{Chain: chainRef, Err: fmt.Sprintf("panic while decoding: %v", e)}}, true
+		}
+	}()
+	msgs, err := c.App.ConsensusKeeper.GetMessagesFromQueue(ctx, world.TurnstoneQueue(chainRef), 0)
+	if err != nil {
+		return nil, false
+	}
+	for _, qm := range msgs {
+		cm, err := qm.ConsensusMsg(c.App.AppCodec())
+		if err != nil {
+			continue
+		}
+		m, isMsg := cm.(*evmtypes.Message)
+		if !isMsg {
+			continue
+		}
+		up, isUp := m.GetAction().(*evmtypes.Message_UploadSmartContract)
+		if !isUp || up.UploadSmartContract == nil || len(up.UploadSmartContract.ConstructorInput) == 0 {
+			continue
+		}
+		u := sentUpload{Chain: chainRef, MsgID: qm.GetId(), ContractID: up.UploadSmartContract.Id}
+		cabi, err := abi.JSON(strings.NewReader(up.UploadSmartContract.Abi))
+		if err != nil {
+			u.Err = "abi: " + err.Error()
+			out = append(out, u)
+			continue
+		}
+		params, err := cabi.Constructor.Inputs.Unpack(up.UploadSmartContract.ConstructorInput)
+		if err != nil || len(params) < 4 {
+			u.Err = fmt.Sprintf("unpack: %v (%d params)", err, len(params))
+			out = append(out, u)
+			continue
+		}
+		// the ABI package returns the tuple as an anonymous struct with the ABI's field order
+		// (validators, powers, valset_id); take the fields by name
+		tv := reflect.ValueOf(params[3])
+		if tv.Kind() != reflect.Struct {
+			u.Err = "constructor argument 3 is not a tuple"
+			out = append(out, u)
+			continue
+		}
+		vals, ok1 := fieldOf(tv, "Validators").([]common.Address)
+		pows, ok2 := fieldOf(tv, "Powers").([]*big.Int)
+		vid, ok3 := fieldOf(tv, "ValsetId").(*big.Int)
+		if !ok1 || !ok2 || !ok3 || vid == nil {
+			u.Err = "constructor argument 3 is not a valset tuple"
+			out = append(out, u)
+			continue
+		}
+		u.Valset = evmtypes.CompassValset{ValsetId: vid, Validators: vals, Powers: pows}
+		out = append(out, u)
+	}
+	return out, true
+}
+
+func fieldOf(v reflect.Value, name string) any {
+	f := v.FieldByName(name)
+	if !f.IsValid() || !f.CanInterface() {
+		return nil
+	}
+	return f.Interface()
 }
 
 var _ = consensustypes.Queue
